@@ -97,8 +97,10 @@ pub fn parse_static_ratio(embedded: bool, input: TokenStream) -> TokenStream {
 fn parse_ratio_with_error(input: TokenStream) -> Result<(IBig, UBig, bool), ParseError> {
     let mut num_val: Option<_> = None;
     let mut num_neg = false;
+    let mut num_signed = false;
     let mut den_val: Option<_> = None;
     let mut den_neg = false;
+    let mut den_signed = false;
     let mut den_marked = false;
     let mut relaxed = false;
     let mut base_marked = false;
@@ -108,9 +110,9 @@ fn parse_ratio_with_error(input: TokenStream) -> Result<(IBig, UBig, bool), Pars
     for token in input {
         match token {
             TokenTree::Literal(lit) => {
-                if num_val.is_none() {
+                if num_val.is_none() && !den_marked {
                     num_val = Some(lit.to_string());
-                } else if den_val.is_none() {
+                } else if den_val.is_none() && den_marked && !base_marked {
                     den_val = Some(lit.to_string());
                 } else if base.is_none() && base_marked {
                     base = Some(lit.to_string());
@@ -119,41 +121,39 @@ fn parse_ratio_with_error(input: TokenStream) -> Result<(IBig, UBig, bool), Pars
                 }
             }
             TokenTree::Ident(ident) => {
-                if num_val.is_none() {
+                if num_val.is_none() && !den_marked {
                     num_val = Some(ident.to_string())
-                } else if den_val.is_none() {
+                } else if den_val.is_none() && den_marked && !base_marked {
                     den_val = Some(ident.to_string());
-                } else if base.is_none() && ident == "base" {
+                } else if base.is_none() && !base_marked && ident == "base" {
                     base_marked = true
                 } else {
                     return Err(ParseError::InvalidDigit);
                 }
             }
             TokenTree::Punct(punct) => {
-                if punct.as_char() == '/' {
-                    if !den_marked && !base_marked {
+                // grammar: [~] [sign] numerator [/ [sign] denominator] [base N]
+                let c = punct.as_char();
+                if c == '/' {
+                    if num_val.is_some() && !den_marked && !base_marked {
                         den_marked = true;
                     } else {
                         return Err(ParseError::InvalidDigit);
                     }
-                } else if punct.as_char() == '~' {
-                    if num_val.is_none() && den_val.is_none() {
+                } else if c == '~' {
+                    if !relaxed && !num_signed && num_val.is_none() && !den_marked {
                         relaxed = true;
                     } else {
                         return Err(ParseError::InvalidDigit);
                     }
-                } else if num_val.is_none() {
-                    if punct.as_char() == '-' {
-                        num_neg = true;
-                    } else if punct.as_char() != '+' {
-                        return Err(ParseError::InvalidDigit);
-                    }
-                } else if den_val.is_none() {
-                    if punct.as_char() == '-' {
-                        den_neg = true;
-                    } else if punct.as_char() != '+' {
-                        return Err(ParseError::InvalidDigit);
-                    }
+                } else if c != '-' && c != '+' {
+                    return Err(ParseError::InvalidDigit);
+                } else if num_val.is_none() && !den_marked && !num_signed {
+                    num_signed = true;
+                    num_neg = c == '-';
+                } else if den_marked && den_val.is_none() && !den_signed {
+                    den_signed = true;
+                    den_neg = c == '-';
                 } else {
                     return Err(ParseError::InvalidDigit);
                 }
@@ -164,6 +164,9 @@ fn parse_ratio_with_error(input: TokenStream) -> Result<(IBig, UBig, bool), Pars
 
     // generate expressions
     let num_val = num_val.ok_or(ParseError::NoDigits)?;
+    if den_marked && den_val.is_none() {
+        return Err(ParseError::NoDigits);
+    }
     let (num, den) = match base {
         Some(b) => {
             let b = b.parse::<u32>().or(Err(ParseError::UnsupportedRadix))?;
